@@ -22,11 +22,12 @@ const (
 
 // finding is one violated clause of one program (the smallest failing L).
 type finding struct {
-	clause string // what is violated (no L value inside)
-	by     string // tag of the first offending emit event ("-" if none)
-	l      uint64
-	rel    string // L relative to u, for the detail text
-	detail string
+	clause  string // what is violated (no L value inside)
+	by      string // tag of the first offending emit event ("-" if none)
+	l       uint64
+	rel     string // L relative to u, for the detail text
+	sawDone bool
+	detail  string
 }
 
 func (f finding) id() string { return f.clause + " by=" + f.by }
@@ -151,9 +152,16 @@ func sweep(p program, unit *code.Unit) (res sweepResult) {
 	var curObs *obs
 	add := func(clause, by, detail string) {
 		f := finding{clause: clause, by: by, l: curL, rel: curRel}
-		if _, ok := res.findings[f.id()]; ok {
+		if old, ok := res.findings[f.id()]; ok {
+			// also show the first limit at which the program even completes
+			if clause == "kill-intercepted" && curObs.status == "done" && !old.sawDone {
+				old.sawDone = true
+				old.detail += fmt.Sprintf("\n%s: the run even COMPLETES\n  run: %s", curRel, curObs.brief())
+				res.findings[f.id()] = old
+			}
 			return
 		}
+		f.sawDone = curObs.status == "done"
 		f.detail = fmt.Sprintf("%s: %s\n  run: %s", curRel, detail, curObs.brief())
 		res.findings[f.id()] = f
 	}
@@ -173,12 +181,8 @@ func sweep(p program, unit *code.Unit) (res sweepResult) {
 		add("nondeterministic", firstEmitTag(ref2.ev, divergence(ref.ev, ref2.ev)), "two reference runs differ; second: "+ref2.brief())
 	}
 	checkInternal(&ref, add)
-	wantRef := "done"
-	if p.infinite {
-		wantRef = "killed"
-	}
-	if ref.status != wantRef {
-		add("reference-run-"+ref.status, "-", "the reference run must end "+wantRef)
+	if !p.infinite && ref.status != "done" {
+		add("reference-run-"+ref.status, "-", "the run under a limit of 2^40 must complete")
 		return
 	}
 	if !p.infinite {
@@ -200,6 +204,10 @@ func sweep(p program, unit *code.Unit) (res sweepResult) {
 	u := ref.used
 	if p.infinite {
 		u = 0
+	}
+	needs := fmt.Sprintf("the unlimited run uses u=%d cpu", u)
+	if p.infinite {
+		needs = "the program never terminates"
 	}
 	var verd strings.Builder
 	maxKilled, minDone := uint64(0), uint64(0)
@@ -225,12 +233,12 @@ func sweep(p program, unit *code.Unit) (res sweepResult) {
 			// the run left the path of the unlimited run although L <= u: something caught the kill
 			intercepted = true
 			add("kill-intercepted", firstEmitTag(o.ev, d),
-				fmt.Sprintf("the unlimited run uses u=%d cpu, so L must kill and the trace must be a prefix of the unlimited one; instead event #%d is %s (unlimited run: %s) and the run ends %s",
-					u, d, o.ev[d].s, evAt(ref.ev, d), o.status))
+				fmt.Sprintf("%s, so L must kill and the trace must be a prefix of the unlimited one; instead event #%d is %s (unlimited run: %s) and the run ends %s",
+					needs, d, o.ev[d].s, evAt(ref.ev, d), o.status))
 		case expectKilled && o.status != "killed":
 			intercepted = true
 			add("verdict:L<=u-not-killed:"+o.status, "-",
-				fmt.Sprintf("the unlimited run uses u=%d cpu, so L must kill", u))
+				needs+", so L must kill")
 		case !expectKilled && o.status != "done":
 			add("verdict:L>u-"+o.status, firstEmitTag(o.ev, d),
 				fmt.Sprintf("the unlimited run uses only u=%d cpu, so L must not interfere", u))
@@ -283,6 +291,10 @@ func sweep(p program, unit *code.Unit) (res sweepResult) {
 	if minDone != 0 && maxKilled > minDone && !intercepted {
 		curL, curRel, curObs = maxKilled, relToU(maxKilled, u, p.infinite), &ref
 		add("not-monotone", "-", fmt.Sprintf("done at L=%d but killed at the larger L=%d", minDone, maxKilled))
+	}
+	if p.infinite && ref.status != "killed" && !intercepted {
+		curL, curRel, curObs = refL, relToU(refL, u, true), &ref
+		add("verdict:L<=u-not-killed:"+ref.status, "-", "the program never terminates, so every limit must kill")
 	}
 	res.sig = fmt.Sprintf("%s|%d|%s|%s", p.shape(), ref.used, strings.Join(ref.evStrings(), ";"), verd.String())
 	return
